@@ -12,6 +12,7 @@ import Driver.Flt
 import Driver.Fmt
 import Driver.Stream
 import Driver.Conc
+import Driver.Sinks
 
 open Driver
 
@@ -30,6 +31,7 @@ def dispatch (c : Case) : Verdict :=
   else if fam == "fmt" then Driver.Fmt.handle c
   else if fam == "sshist" || fam == "ssfault" then Driver.Stream.handle c
   else if fam == "conc" then Driver.Conc.handle c
+  else if fam.startsWith "sk." then Driver.Sinks.handle c
   else { corr := false, why := "no handler for op " ++ c.op }
 
 structure Stats where
